@@ -97,6 +97,8 @@ def mk_adapter(tok):
         return MON[D.DelayToPull](steps=tok[1], additional_delay=H(tok[2] if len(tok) > 2 else 0))
     if k == "U":
         return MON[D.DelayToPush]()
+    if k == "R":  # identity regridding (same grid on both sides), a stateless pass-through adapter
+        return D.RegridNearest()
     raise ValueError(tok)
 
 
@@ -319,8 +321,12 @@ class RefP:
 class Run:
     """one live composition + reference links + monitors (deep-copied as a whole for snapshots)"""
 
-    def __init__(self, cfg, script=None):
+    def __init__(self, cfg, script=None, default=False):
         World.cur = self
+        self.default = default  # stateless mode: when the script is exhausted take the first menu entry instead of pausing
+        self.choices = Log()
+        self.choices["made"] = []
+        self.choices["menus"] = []
         self.cfg = cfg = Shared(cfg)
         self.viol = []  # (clause, fp, what)
         self.script = list(script) if script is not None else None
@@ -388,8 +394,14 @@ class Run:
     # ---- environment choice
     def choose(self, comp):
         if self.script is not None and self.script:
-            return self.script.pop(0)
-        raise Pause(comp.name)
+            x = self.script.pop(0)
+        elif self.default:
+            x = comp.menu[0]
+        else:
+            raise Pause(comp.name)
+        self.choices["made"].append(x)
+        self.choices["menus"].append(list(comp.menu))
+        return x
 
     # ---- observers
     def v(self, clause, fp, what):
@@ -685,8 +697,34 @@ def signature(cfg):
     return sig, r
 
 
-def run_path(cfg, path):
+def explore_stateless(cfg, depth):
+    """stateless exploration (no pause/re-entry, every execution is ONE uninterrupted run() call from a fresh composition):
+    all choice sequences whose first `depth` choice points are enumerated exhaustively, later points take the first menu entry.
+    Complements the snapshot search: driver state carried across loop iterations inside run() survives here."""
+    res = dict(states=0, transitions=0, terminals=0, outcomes=collections.Counter(), violations=[], stats=collections.Counter(), capped=None)
+    stack = [[]]
+    while stack:
+        prefix = stack.pop()
+        r = Run(cfg, script=list(prefix), default=True)
+        out = r.resume()
+        made, menus = r.choices["made"], r.choices["menus"]
+        res["terminals"] += 1
+        res["states"] += r.updates + 1
+        res["transitions"] += r.updates
+        res["outcomes"][out[0] if out[0] != "exc" else "exc:" + out[1]] += 1
+        if out[0] != "done":
+            res.setdefault("nonfinal", []).append((out, list(made)))
+        for clause, fp, what in r.viol:
+            res["violations"].append((clause, fp, what, list(made)))
+        res["stats"].update(r.stats)
+        for i in range(len(prefix), min(len(made), depth)):
+            for alt in menus[i][1:]:
+                stack.append(made[:i] + [alt])
+    return res
+
+
+def run_path(cfg, path, default=False):
     """re-executes one choice sequence without the explorer (replay); returns (outcome, violations)"""
-    r = Run(cfg, script=path)
+    r = Run(cfg, script=path, default=default)
     out = r.resume()
     return out, [(c, fp, w, list(path)) for c, fp, w in r.viol], r
